@@ -79,6 +79,16 @@ Definition upper1 (c : byte) : byte :=
   end%byte.
 Definition upper (s : str) : str := map upper1 s.
 
+(* ASCII str.lower() *)
+Definition lower1 (c : byte) : byte :=
+  match c with
+  | "A" => "a" | "B" => "b" | "C" => "c" | "D" => "d" | "E" => "e" | "F" => "f" | "G" => "g" | "H" => "h"
+  | "I" => "i" | "J" => "j" | "K" => "k" | "L" => "l" | "M" => "m" | "N" => "n" | "O" => "o" | "P" => "p"
+  | "Q" => "q" | "R" => "r" | "S" => "s" | "T" => "t" | "U" => "u" | "V" => "v" | "W" => "w" | "X" => "x"
+  | "Y" => "y" | "Z" => "z" | x => x
+  end%byte.
+Definition lower (s : str) : str := map lower1 s.
+
 (* sep.join(parts) *)
 Fixpoint join (sep : str) (parts : list str) : str :=
   match parts with
